@@ -29,6 +29,10 @@ pub struct Case {
     /// (`dbgcheck::crowd_addrs` / `crowd_tail`)
     #[serde(default)]
     pub crowd: u16,
+    /// 1 / 2: the directed program that fills every word of memory outside its own code with x4141
+    /// and then prints the "string" at its origin with PUTS / PUTSP - no word anywhere ends it
+    #[serde(default)]
+    pub fill: u8,
 }
 
 /// Debugger and program share standard input: whatever the interleaving of command reads and
@@ -84,7 +88,33 @@ fn obs_key_bits(cmds: &[RawCmd]) -> u64 {
     hash_of(&("plant", cmds.len(), cmds.first().map(|r| (r.a, r.b, r.c))))
 }
 
+/// A string that nothing in the whole memory terminates: whatever the trap makes of it (one lap
+/// round the memory is lace's answer), the instruction ends and the session with it.
+fn judge_fill(kind: u8) -> Obs {
+    let mut obs = Obs::default();
+    obs.key = hash_of(&("fill", kind));
+    obs.nontrivial = true;
+    obs.label("string-that-nothing-in-memory-terminates");
+    let trap = if kind == 2 { "putsp" } else { "puts" };
+    let text = format!(
+        ".orig x3000\nstart ld r1, val\nld r4, lastbelow\nnot r4, r4\nlea r2, last\nadd r2, r2, #2\nloop str r1, r2, #0\nadd r2, r2, #1\nadd r3, r2, r4\nbrnp loop\nlea r0, start\n{trap}\nhalt\nval .fill x4141\nlastbelow .fill x2FFF\nlast .fill x4141\n"
+    );
+    obs.show = Some(format!("script `continue` / end of input on:\n{text}"));
+    let s = lacebox::run_session(
+        lacebox::Load::Source { text: text.clone(), debugger: Some(Some("continue".to_string())) },
+        lacebox::RunSpec { stack: false, minimal: true, fuel: 2_000_000, input: vec![] },
+    );
+    let Some(out) = outcome_of(&mut obs, "C16", &s, &text) else { return obs };
+    if out.stop == Stop::OutOfFuel {
+        obs.set_fail("C16:session-does-not-return", format!("2,000,000 loop iterations spent; the program fills memory in about 262,000 instructions and then prints one string\n{text}"));
+    }
+    obs
+}
+
 pub fn judge_case(c: &Case) -> Obs {
+    if c.fill != 0 {
+        return judge_fill(c.fill);
+    }
     if let Some(trailing) = &c.shared {
         return judge_shared(c, trailing);
     }
@@ -211,7 +241,7 @@ fn cases() -> impl Strategy<Value = Case> {
         if crowd != 0 {
             cmds.truncate(8);
         }
-        Case { spec, cmds, end, shared: None, crowd }
+        Case { spec, cmds, end, shared: None, crowd, fill: 0 }
     })
 }
 
@@ -227,7 +257,7 @@ fn shared_cases() -> impl Strategy<Value = Case> {
         spec
     });
     let trailing = prop::collection::vec(prop::sample::select(b"0123456789+.=# \n;".to_vec()), 0..12);
-    (spec, prop::collection::vec(raw_cmd(), 0..8), 0u8..3, trailing).prop_map(|(spec, cmds, end, trailing)| Case { spec, cmds, end, shared: Some(trailing), crowd: 0 })
+    (spec, prop::collection::vec(raw_cmd(), 0..8), 0u8..3, trailing).prop_map(|(spec, cmds, end, trailing)| Case { spec, cmds, end, shared: Some(trailing), crowd: 0, fill: 0 })
 }
 
 impl Prop for C16 {
@@ -237,7 +267,7 @@ impl Prop for C16 {
     fn rule(&self) -> &'static str {
         "ProgGen programs whose reference run stops within a known bound, with endings weighted towards computed jumps to 0xFFFF, below the origin, to >= 0xFE00 and parking on HALT x scripts of 0-11 mixed (or 4-39 step-heavy) resuming / breakpoint commands (step, step into k incl. 65535, step out, continue, break add/remove) ended by end of input, `exit` or `quit`; a quarter of the scripts first write a HALT over a word of the code; an eighth of the scripts begin with a crowd of 15..257 `break add`s on consecutive words and end with up to 40 `continue`s among which members of the crowd are removed. \
          Oracle (the statement's own bound, decided by deterministic fuel, never a timer; a session that burns 20 s of its thread's CPU time without one iteration of either hooked loop - hook H7 - is reported as spinning): with ticks = iterations of the run loop (hook H3), execs = executed instructions (H4), cmds = commands + 1: with inner = iterations of the debugger's own loop (H6), which shares the fuel: the session returns before 8*(bound + cmds) + 64 iterations in total, ticks <= 2*(execs + cmds) + 4 and inner <= 3*(execs + cmds) + 6. \
-         Plus, through the real binary: programs that read input here and there, with a script of control commands on standard input followed by bytes that are program input (debugger and program share the stream, `;` or newline separated): the process must end; the verdict 'blocked for good' is read from the process state (its only thread waits in the futex system call, no CPU time used, four samples 0.4 s apart), never from a time limit. Non-trivial: the session reaches a PC outside user space or parks on HALT and issues >= 1 resuming command. Distinct = hash(source, script)."
+         Plus, through the real binary: programs that read input here and there, with a script of control commands on standard input followed by bytes that are program input (debugger and program share the stream, `;` or newline separated): the process must end; the verdict 'blocked for good' is read from the process state (its only thread waits in the futex system call, no CPU time used, four samples 0.4 s apart), never from a time limit. Plus the directed program that fills the whole memory with x4141 and then prints a string that nothing terminates (PUTS, PUTSP): the session must end. Non-trivial: the session reaches a PC outside user space or parks on HALT and issues >= 1 resuming command. Distinct = hash(source, script)."
     }
     fn level(&self) -> &'static str {
         "exploration"
@@ -257,6 +287,14 @@ impl Prop for C16 {
         drive(ctx, rep, "shared-stdin", shared_cases(), n2, &mut |c: &Case| judge_case(c));
         std::env::remove_var("VERIF_MAX_SHRINK");
         drive(ctx, rep, "sessions", cases(), n, &mut |c: &Case| judge_case(c));
+        // a string that nothing in memory terminates (PUTS, PUTSP)
+        for kind in [1u8, 2] {
+            if ctx.worker == (kind as usize * 5) % ctx.nworkers {
+                let spec = ProgSpec { main: vec![], subs: vec![], sub_call: vec![], ending: Ending::Halt, orig_sel: 0, orig_val: 0x3000, stack: false, recursion: 0, data: vec![0], strings: vec![String::new()], raw_words: None, fit: 0, spin: 0 };
+                judge_one(ctx, rep, &Case { spec, cmds: vec![], end: 0, shared: None, crowd: 0, fill: kind }, &mut |c| judge_case(c));
+            }
+        }
+        rep.exhaustive.push("the program that fills every word of memory outside its own code with x4141 and prints the string at its origin with PUTS / PUTSP: the session must end".into());
     }
     fn fuzz_strategy(&self) -> Option<BoxedStrategy<Value>> {
         Some(crate::fuzzmode::jv(cases()))
